@@ -4,6 +4,7 @@ import ColoVerif.Proofs.SpreadExport
 import ColoVerif.Proofs.SpreadFree
 import ColoVerif.Proofs.GlobalLoop
 import ColoVerif.Proofs.SpreadFWitness
+import ColoVerif.Proofs.SpreadFCoord
 /-
 C06 — global placement stays inside the placement area and exports the blend.
 
@@ -13,13 +14,13 @@ executes against `HierarchicalDensityPlacement::spreadCoordX/Y`, `simpleCoordX/Y
 
 The first block is over `Rat` (the C++ expressions evaluated exactly).  The block "binary32" is about
 `ColoVerif/Model/SpreadF.lean`: `spreadCells`/`spreadCoordX/Y` as compiled, every operation followed by one
-round-to-nearest-even to binary32; `drv_C06` (op `spreadf`) compares it with the real `spreadCoordX/Y` float
-for float, exactly.  In binary32 a coordinate can leave the closed bin (`spreadF_can_leave_bin`), by more than
-one half for adversarial demand mixes (`spreadF_can_exceed_half`); what is proved for all inputs is the
-enclosure of a coordinate in terms of the final running share (`spreadF_enclosure_partial`) and that an
-excursion below one half vanishes in the export rounding (`exposed_centre_within_half`).  Not proved:
-finiteness of the conjugate-gradient iterates, absence of exceptions, the bound on the running share
-(`spreadF_enclosure_full_statement`); see `tools/props/C06.py`.
+round-to-nearest-even to binary32, including the clamp of fixes/c06-spread-clamp.diff; `drv_C06` (op `spreadf`)
+compares it with the real `spreadCoordX/Y` float for float, exactly.  With the clamp every binary32 coordinate is
+in the closed bin for ALL inputs (`spreadF_inside_closed_bin`, lifted to every cell by `ubF_every_cell_inside` and
+to the exposed centre by `ubF_exposed_centre`).  Before the fix (`Model/LegacySpreadF.lean`) a coordinate could
+leave the bin, by more than one half for adversarial demand mixes (`legacy_spreadF_can_leave_bin`,
+`legacy_spreadF_can_exceed_half`).  Not proved: finiteness of the conjugate-gradient iterates, absence of
+exceptions; see `tools/props/C06.py`.
 
 The last block is about the control logic of `GlobalPlacer::run` (`ColoVerif/Model/GlobalLoop.lean`):
 the float solves and values enter as an oracle trace, everything else (initial solves, stop test,
@@ -209,91 +210,97 @@ theorem ub_exposed_centre (v : Rat) (w A B : Int) (hA : (A : Rat) ≤ v) (hB : v
   unfold exportCoord
   constructor <;> linarith
 
-/-! ### binary32: `spreadCells` as compiled (`Model/SpreadF.lean`) -/
+/-! ### binary32: `spreadCells` / `spreadCoordX/Y` as compiled (`Model/SpreadF.lean`) -/
 
 open ColoVerif.SpreadF in
-/-- (a) In binary32 the coordinate of a positive-demand cell can lie strictly OUTSIDE the closed bin, on
-both sides (kernel-evaluated on the model the driver runs against `spreadCoordX/Y`): three cells of demands
-2, 8222228, 1 in the bin `[0, 2]` — the last one is placed at `2 + 2^-22`; two cells of demands 4, 2858381 in
-`[3946, 3970]` — the first one is placed at `3946 − 2^-12`. -/
-theorem spreadF_can_leave_bin :
-    (2 : Rat) < (spreadCellsF [0, 1, 2] [2, 8222228, 1] 0 2).getD 2 0 ∧
-    (spreadCellsF [0, 1] [4, 2858381] 3946 3970).getD 0 0 < (3946 : Rat) := by
-  rw [witness_up, witness_low]
-  constructor <;> norm_num
-
-open ColoVerif.SpreadF in
-/-- …and by more than one half, so that the export rounding does NOT absorb it: ten cells of demands
-16776988, 1×6, 2×3 (total just below 2^24, targets increasing) in the bin `[0, 4000000]`: every addition to the
-running share rounds up, it ends at `1 + 3·2^-22`, the last cell is placed at `4000002.5` and the exported
-centre of a zero-width cell there is `4000003 > 4000000 + 1/2`.  (Proposed known finding KF-C06-3.) -/
-theorem spreadF_can_exceed_half :
-    (4000000 : Rat) + 1 / 2 <
-      (exportCoord ((spreadCellsF [0, 1, 2, 3, 4, 5, 6, 7, 8, 9] [16776988, 1, 1, 1, 1, 1, 1, 2, 2, 2] 0 4000000).getD 9 0) 0 : Rat)
-        + (1 / 2) * ((0 : Int) : Rat) := by
-  rw [witness_drift.1]
-  have : exportCoord (8000005 / 2) 0 = 4000003 := by decide +kernel
-  rw [this]; norm_num
-
-open ColoVerif.SpreadF in
-/-- (b), what is proved for ALL inputs: with non-negative demands and `lo ≤ hi`, the binary32 coordinate of
-every positive-demand cell is within `epsF δ lo hi = δ(hi−lo) + (1+δ)(|lo|+|hi|)·4·2^-24 + 8·2^-150` of the closed
-bin, where `1 + δ` bounds the FINAL running share `dem` of the loop (`finalShareF`, the same fold the driver
-executes).  Ingredients: one rounding moves `x` by at most `|x|·2^-24 + 2^-150` (no range condition); the
-running share never decreases, so every mid-share is between 0 and the final one; four roundings in the
-coordinate expression.  Missing for the full statement: the bound on the final share in terms of the number
-of cells. -/
-theorem spreadF_enclosure_partial (targets demands : List Rat) (lo hi δ : Rat)
-    (hnn : ∀ d ∈ demands, 0 ≤ d) (hlh : lo ≤ hi) (hδ0 : 0 ≤ δ)
-    (hshare : finalShareF targets demands lo hi ≤ 1 + δ)
+/-- `spreadCells` in binary32, ALL inputs (any targets, any demands — negative, huge, inexact —, any running
+share, whatever the roundings do): with `lo ≤ hi` the coordinate returned for a cell of positive demand lies in
+the CLOSED bin `[lo, hi]`.  (The strict containment of `spread_inside` does not survive rounding: a coordinate
+can sit on the edge.) -/
+theorem spreadF_inside_closed_bin (targets demands : List Rat) (lo hi : Rat) (hlh : lo ≤ hi)
     (i : Nat) (hi' : i < targets.length) (hpos : 0 < demands.getD i 0) :
-    lo - epsF δ lo hi ≤ (spreadCellsF targets demands lo hi).getD i 0 ∧
-    (spreadCellsF targets demands lo hi).getD i 0 ≤ hi + epsF δ lo hi := by
-  obtain ⟨dem, d0, d1, e⟩ := spreadCellsF_form targets demands lo hi hnn i hi' hpos
-  rw [e]
-  exact coordAtF_enclosure d0 (le_trans d1 hshare) hδ0 hlh
+    lo ≤ (spreadCellsF targets demands lo hi).getD i 0 ∧ (spreadCellsF targets demands lo hi).getD i 0 ≤ hi :=
+  spreadCellsF_inside targets demands lo hi hlh i hi' hpos
 
 open ColoVerif.SpreadF in
-/-- non-vacuity of `spreadF_enclosure_partial` on the drift witness: the final share is `1 + 3·2^-22` and the
-last coordinate `4000002.5` is within `epsF (3·2^-22) 0 4000000 ≈ 3.8` of the bin -/
-example : (spreadCellsF [0, 1, 2, 3, 4, 5, 6, 7, 8, 9] [16776988, 1, 1, 1, 1, 1, 1, 2, 2, 2] 0 4000000).getD 9 0 ≤
-    4000000 + epsF (3 / 4194304) 0 4000000 :=
-  (spreadF_enclosure_partial _ _ 0 4000000 (3 / 4194304)
-    (by intro d hd; simp at hd; rcases hd with rfl | rfl | rfl <;> norm_num) (by norm_num) (by norm_num)
-    (by rw [witness_drift.2]; norm_num) 9 (by simp) (by simp)).2
+/-- non-vacuity of `spreadF_inside_closed_bin`, on the input that broke the pre-fix code: the last cell is now
+placed on the edge `4000000` (kernel-evaluated: `LegacySpreadF.witness_drift_fixed`) -/
+example : (spreadCellsF [0, 1, 2, 3, 4, 5, 6, 7, 8, 9] [16776988, 1, 1, 1, 1, 1, 1, 2, 2, 2] 0 4000000).getD 9 0 ≤ 4000000 :=
+  (spreadF_inside_closed_bin _ _ 0 4000000 (by norm_num) 9 (by simp) (by simp)).2
 
 open ColoVerif.SpreadF in
-/-- the share slack conjectured for a bin of `n` cells: `(1 + 2^-24)^(4n+4) − 1 ≤ K/(1 − K)`, `K = (4n+4)·2^-24`
-(`2n` roundings in `std::accumulate` and the reciprocal, two per half share, `2n` additions to `dem`) -/
-def shareSlack (n : Nat) : Rat := ((4 * n + 4 : Nat) : Rat) * u32 / (1 - ((4 * n + 4 : Nat) : Rat) * u32)
+/-- `spreadCoordX/Y` in binary32: if every bin of the loop has `lo ≤ hi`, no cell is allocated to two bins (nor
+twice to one) and cell indices are in range — the invariant `HierarchicalDensityPlacement::check` asserts, C16 —,
+then every positive-demand cell of a bin gets a coordinate in `[(float) lo, (float) hi]`.  No hypothesis on the
+sign or size of the other demands. -/
+theorem spreadF_coord_inside (n : Nat) (aLo aHi : Int) (bins : List Bin) (target : List Rat) (demand : List Int)
+    (hlh : ∀ b ∈ bins, b.lo ≤ b.hi)
+    (hnd : (bins.flatMap fun b => b.cells).Nodup) (hr : ∀ b ∈ bins, ∀ c ∈ b.cells, c < n) :
+    ∀ b ∈ bins, ∀ c ∈ b.cells, 0 < demand.getD c 0 →
+      fl (b.lo : Rat) ≤ (spreadCoordF n aLo aHi bins target demand).getD c 0 ∧
+      (spreadCoordF n aLo aHi bins target demand).getD c 0 ≤ fl (b.hi : Rat) := by
+  intro b hb c hc hpos
+  exact (binLoopF_inside target demand n bins (initCoordsF n aLo aHi target) (initCoordsF_length _ _ _ _)
+    hlh hnd hr).2.1 b hb c hc hpos
 
 open ColoVerif.SpreadF in
-/-- (b) at full strength — NOT proved: demands that are binary32 values, zero or at least 1 (they are
-`(float) cellDemand`), of exact sum at most `2^100`, at most `2^20` cells: every positive-demand cell is within
-`epsF (shareSlack n) lo hi` of its bin.  What is missing is `finalShareF ≤ 1 + shareSlack n`; everything else
-is `spreadF_enclosure_partial`.  The witness of `spreadF_can_exceed_half` shows that a slack linear in the
-number of cells is really attained (`3·2^-22` with 10 cells), so no radius below one half exists on the whole
-domain (limits up to `2^22`, a few hundred cells per bin). -/
-def spreadF_enclosure_full_statement : Prop :=
-  ∀ (targets demands : List Rat) (lo hi : Rat), demands.length = targets.length → targets.length ≤ 2 ^ 20 →
-    (∀ d ∈ demands, d = 0 ∨ (1 ≤ d ∧ fl d = d)) → demands.sum ≤ 2 ^ 100 → lo ≤ hi →
-    ∀ i, i < targets.length → 0 < demands.getD i 0 →
-      lo - epsF (shareSlack targets.length) lo hi ≤ (spreadCellsF targets demands lo hi).getD i 0 ∧
-      (spreadCellsF targets demands lo hi).getD i 0 ≤ hi + epsF (shareSlack targets.length) lo hi
+/-- A cell that is in no bin keeps its target clamped to `[(float) aLo, (float) aHi]` (comparisons only). -/
+theorem spreadF_coord_unassigned (n : Nat) (aLo aHi : Int) (bins : List Bin) (target : List Rat) (demand : List Int)
+    (hlh : ∀ b ∈ bins, b.lo ≤ b.hi)
+    (hnd : (bins.flatMap fun b => b.cells).Nodup) (hr : ∀ b ∈ bins, ∀ c ∈ b.cells, c < n)
+    (c : Nat) (hc : c < n) (hno : ∀ b ∈ bins, c ∉ b.cells) :
+    (spreadCoordF n aLo aHi bins target demand).getD c 0 = clampF aLo aHi (target.getD c 0) := by
+  rw [← initCoordsF_getD n aLo aHi target c hc]
+  exact (binLoopF_inside target demand n bins (initCoordsF n aLo aHi target) (initCoordsF_length _ _ _ _)
+    hlh hnd hr).2.2 c hno
 
 open ColoVerif.SpreadF in
-/-- the radius is below one half on the domain of the end-to-end stream and well beyond it: share slack at
-most `2^-14`, bins at most 2048 wide, limits up to `2^18` in magnitude.  (At `2^22` the four roundings of the
-coordinate expression alone can move a coordinate by more than one half: binary32 has a spacing of 1/4
-there.) -/
-theorem spreadF_radius_below_half (δ lo hi : Rat) (h0 : 0 ≤ δ) (hδ : δ ≤ 1 / 16384) (hw : hi - lo ≤ 2048)
-    (hlo : |lo| ≤ 262144) (hhi : |hi| ≤ 262144) : epsF δ lo hi < 1 / 2 :=
-  epsF_lt_half h0 hδ hw hlo hhi
+/-- Every cell, binary32 (the float analogue of `ub_every_cell_inside`).  Hypotheses, exactly as in the `Rat`
+version: from C16's invariant — no cell in two bins (`hnd`), indices in range (`hr`), bins hold only cells of
+positive demand (`hposbin`), every bin limit and the extent `[aLo, aHi]` of the placement area are grid limits
+(`hb`, `ha`) —; from `bins_inside_area` — grid limits lie in `[A, B]` (`hl`) —; and one more for binary32 — the
+limits convert exactly to `float`, `|l| ≤ 2^24` (`hex`; C06's coordinates are below `2^22`).  Conclusion: every
+cell index, in a bin or not, gets an upper-bound coordinate in `[A, B]`. -/
+theorem ubF_every_cell_inside (lims : List Int) (A B : Int) (hl : ∀ l ∈ lims, A ≤ l ∧ l ≤ B)
+    (hex : ∀ l ∈ lims, |l| ≤ 2 ^ 24)
+    (n : Nat) (aLo aHi : Int) (ha : aLo ∈ lims ∧ aHi ∈ lims ∧ aLo ≤ aHi)
+    (bins : List Bin) (target : List Rat) (demand : List Int)
+    (hb : ∀ b ∈ bins, b.lo ∈ lims ∧ b.hi ∈ lims ∧ b.lo ≤ b.hi)
+    (hnd : (bins.flatMap fun b => b.cells).Nodup) (hr : ∀ b ∈ bins, ∀ c ∈ b.cells, c < n)
+    (hposbin : ∀ b ∈ bins, ∀ c ∈ b.cells, 0 < demand.getD c 0) :
+    ∀ c, c < n →
+      (A : Rat) ≤ (spreadCoordF n aLo aHi bins target demand).getD c 0 ∧
+      (spreadCoordF n aLo aHi bins target demand).getD c 0 ≤ (B : Rat) := by
+  intro c hc
+  have hlh : ∀ b ∈ bins, b.lo ≤ b.hi := fun b hb' => (hb b hb').2.2
+  by_cases hexi : ∃ b ∈ bins, c ∈ b.cells
+  · obtain ⟨b, hbm, hcm⟩ := hexi
+    obtain ⟨h1, h2⟩ := spreadF_coord_inside n aLo aHi bins target demand hlh hnd hr b hbm c hcm (hposbin b hbm c hcm)
+    rw [fl_int _ (hex _ (hb b hbm).1)] at h1
+    rw [fl_int _ (hex _ (hb b hbm).2.1)] at h2
+    have a1 : (A : Rat) ≤ (b.lo : Rat) := by exact_mod_cast (hl b.lo (hb b hbm).1).1
+    have a2 : (b.hi : Rat) ≤ (B : Rat) := by exact_mod_cast (hl b.hi (hb b hbm).2.1).2
+    constructor <;> linarith
+  · have hno : ∀ b ∈ bins, c ∉ b.cells := fun b hbm hcm => hexi ⟨b, hbm, hcm⟩
+    rw [spreadF_coord_unassigned n aLo aHi bins target demand hlh hnd hr c hc hno]
+    obtain ⟨c1, c2⟩ := clampF_bounds aLo aHi ha.2.2 (target.getD c 0)
+    rw [fl_int _ (hex _ ha.1)] at c1
+    rw [fl_int _ (hex _ ha.2.1)] at c2
+    have a1 : (A : Rat) ≤ (aLo : Rat) := by exact_mod_cast (hl aLo ha.1).1
+    have a2 : (aHi : Rat) ≤ (B : Rat) := by exact_mod_cast (hl aHi ha.2.1).2
+    constructor <;> linarith
 
-/-- (c) The "up to rounding" of the statement, for a float centre that left the area by less than one half:
-for any `x` with `A − ε ≤ x ≤ B + ε`, `ε < 1/2`, `A B` integers and an integer width `w`, the exported position
-`p = round(x − w/2)` (half away from zero) has its centre `p + w/2` in `[A − 1/2, B + 1/2]` — the same
-tolerance as `ub_exposed_centre` (`2p + w` is an integer strictly between `2A − 2` and `2B + 2`). -/
+open ColoVerif.SpreadF in
+/-- non-vacuity of `ubF_every_cell_inside`: two bins `[0,5]`, `[5,10]` with cells `{0,2}` and `{1}`, cell 3 in no bin -/
+example : (0 : Rat) ≤ (spreadCoordF 4 0 10 [⟨0, 5, [0, 2]⟩, ⟨5, 10, [1]⟩] [7, 1, 3, 99] [2, 4, 6, 0]).getD 3 0 ∧
+    (spreadCoordF 4 0 10 [⟨0, 5, [0, 2]⟩, ⟨5, 10, [1]⟩] [7, 1, 3, 99] [2, 4, 6, 0]).getD 3 0 ≤ ((10 : Int) : Rat) :=
+  ubF_every_cell_inside [0, 5, 10] 0 10 (by decide) (by decide) 4 0 10 (by decide)
+    [⟨0, 5, [0, 2]⟩, ⟨5, 10, [1]⟩] [7, 1, 3, 99] [2, 4, 6, 0] (by decide) (by decide) (by decide) (by decide) 3 (by decide)
+
+/-- The "up to rounding" of the statement in its general form: for any `x` with `A − ε ≤ x ≤ B + ε`, `ε < 1/2`,
+`A B` integers and an integer width `w`, the exported position `p = round(x − w/2)` (half away from zero) has its
+centre `p + w/2` in `[A − 1/2, B + 1/2]` (`2p + w` is an integer strictly between `2A − 2` and `2B + 2`).  With
+`ε = 0` this is `ub_exposed_centre`; it also shows that an excursion below one half would be invisible. -/
 theorem exposed_centre_within_half (x ε : Rat) (w A B : Int) (hε : ε < 1 / 2)
     (hA : (A : Rat) - ε ≤ x) (hB : x ≤ (B : Rat) + ε) :
     (A : Rat) - 1 / 2 ≤ (exportCoord x w : Rat) + (1 / 2) * (w : Rat) ∧
@@ -305,38 +312,56 @@ example : (exportCoord (52 / 5) 3 : Rat) + (1 / 2) * ((3 : Int) : Rat) ≤ ((10 
   (exposed_centre_within_half (52 / 5) (2 / 5) 3 0 10 (by norm_num) (by norm_num) (by norm_num)).2
 
 open ColoVerif.SpreadF in
-/-- (a)+(b)+(c) per bin, the binary32 version of `ub_centre_inside` + `ub_exposed_centre`: a bin `[lo, hi]` with
-integer limits inside `[A, B]`, non-negative demands, final running share at most `1 + δ` and radius
-`epsF δ lo hi < 1/2`: the centre exposed for every positive-demand cell of the bin (any integer width) lies in
-`[A − 1/2, B + 1/2]`, although the float coordinate itself may be outside `[lo, hi]`. -/
-theorem binF_exposed_centre_inside (targets demands : List Rat) (lo hi A B w : Int) (δ : Rat)
-    (hnn : ∀ d ∈ demands, 0 ≤ d) (hlh : lo ≤ hi) (hA : A ≤ lo) (hB : hi ≤ B) (hδ0 : 0 ≤ δ)
-    (hshare : finalShareF targets demands (lo : Rat) (hi : Rat) ≤ 1 + δ)
-    (hε : epsF δ (lo : Rat) (hi : Rat) < 1 / 2)
-    (i : Nat) (hi' : i < targets.length) (hpos : 0 < demands.getD i 0) :
-    (A : Rat) - 1 / 2 ≤ (exportCoord ((spreadCellsF targets demands (lo : Rat) (hi : Rat)).getD i 0) w : Rat) + (1 / 2) * (w : Rat) ∧
-    (exportCoord ((spreadCellsF targets demands (lo : Rat) (hi : Rat)).getD i 0) w : Rat) + (1 / 2) * (w : Rat) ≤ (B : Rat) + 1 / 2 := by
-  obtain ⟨e1, e2⟩ := spreadF_enclosure_partial targets demands (lo : Rat) (hi : Rat) δ hnn (by exact_mod_cast hlh) hδ0 hshare i hi' hpos
-  have a : (A : Rat) ≤ (lo : Rat) := by exact_mod_cast hA
-  have b : (hi : Rat) ≤ (B : Rat) := by exact_mod_cast hB
-  exact exposed_centre_within_half _ (epsF δ (lo : Rat) (hi : Rat)) w A B hε (by linarith) (by linarith)
+/-- What a callback exposes of a binary32 upper-bound placement (hypotheses of `ubF_every_cell_inside`): for
+every cell and every integer placed width `w`, the exposed centre `round(v − w/2) + w/2` lies in the rows'
+bounding box enlarged by one half — exactly the tolerance of the direct oracle (`exposed_centre_within_half`
+with `ε = 0`). -/
+theorem ubF_exposed_centre (lims : List Int) (A B : Int) (hl : ∀ l ∈ lims, A ≤ l ∧ l ≤ B)
+    (hex : ∀ l ∈ lims, |l| ≤ 2 ^ 24)
+    (n : Nat) (aLo aHi : Int) (ha : aLo ∈ lims ∧ aHi ∈ lims ∧ aLo ≤ aHi)
+    (bins : List Bin) (target : List Rat) (demand : List Int)
+    (hb : ∀ b ∈ bins, b.lo ∈ lims ∧ b.hi ∈ lims ∧ b.lo ≤ b.hi)
+    (hnd : (bins.flatMap fun b => b.cells).Nodup) (hr : ∀ b ∈ bins, ∀ c ∈ b.cells, c < n)
+    (hposbin : ∀ b ∈ bins, ∀ c ∈ b.cells, 0 < demand.getD c 0) (w : Int) :
+    ∀ c, c < n →
+      (A : Rat) - 1 / 2 ≤ (exportCoord ((spreadCoordF n aLo aHi bins target demand).getD c 0) w : Rat) + (1 / 2) * (w : Rat) ∧
+      (exportCoord ((spreadCoordF n aLo aHi bins target demand).getD c 0) w : Rat) + (1 / 2) * (w : Rat) ≤ (B : Rat) + 1 / 2 := by
+  intro c hc
+  obtain ⟨h1, h2⟩ := ubF_every_cell_inside lims A B hl hex n aLo aHi ha bins target demand hb hnd hr hposbin c hc
+  exact exposed_centre_within_half _ 0 w A B (by norm_num) (by linarith) (by linarith)
 
 open ColoVerif.SpreadF in
-/-- non-vacuity of `binF_exposed_centre_inside` on the witness of `spreadF_can_leave_bin`: the float coordinate
-`2 + 2^-22` is outside the bin `[0, 2]`, the exposed centre is not -/
-example : (exportCoord ((spreadCellsF [0, 1, 2] [2, 8222228, 1] ((0 : Int) : Rat) ((2 : Int) : Rat)).getD 2 0) 0 : Rat)
-    + (1 / 2) * ((0 : Int) : Rat) ≤ ((2 : Int) : Rat) + 1 / 2 :=
-  (binF_exposed_centre_inside [0, 1, 2] [2, 8222228, 1] 0 2 0 2 0 (1 / 16384)
-    (by intro d hd; simp at hd; rcases hd with rfl | rfl | rfl <;> norm_num) (by decide) (by decide) (by decide)
-    (by norm_num)
-    (by
-      have : finalShareF [0, 1, 2] [2, 8222228, 1] ((0 : Int) : Rat) ((2 : Int) : Rat) = 4194305 / 4194304 := by
-        unfold finalShareF
-        rw [sortedOrder_of_sorted _ (by decide +kernel)]
-        decide +kernel
-      rw [this]; norm_num)
-    (spreadF_radius_below_half _ _ _ (by norm_num) (by norm_num) (by norm_num) (by norm_num) (by norm_num))
-    2 (by simp) (by simp)).2
+/-- non-vacuity of `ubF_exposed_centre` (same data as above, cell 1 of width 3) -/
+example : (exportCoord ((spreadCoordF 4 0 10 [⟨0, 5, [0, 2]⟩, ⟨5, 10, [1]⟩] [7, 1, 3, 99] [2, 4, 6, 0]).getD 1 0) 3 : Rat)
+    + (1 / 2) * ((3 : Int) : Rat) ≤ ((10 : Int) : Rat) + 1 / 2 :=
+  (ubF_exposed_centre [0, 5, 10] 0 10 (by decide) (by decide) 4 0 10 (by decide)
+    [⟨0, 5, [0, 2]⟩, ⟨5, 10, [1]⟩] [7, 1, 3, 99] [2, 4, 6, 0] (by decide) (by decide) (by decide) (by decide) 3 1 (by decide)).2
+
+/-! ### the pre-fix `spreadCells` (`Model/LegacySpreadF.lean`, before fixes/c06-spread-clamp.diff) -/
+
+open ColoVerif.LegacySpreadF in
+/-- Before the clamp the binary32 coordinate of a positive-demand cell could lie strictly OUTSIDE the closed
+bin, on both sides (kernel-evaluated): three cells of demands 2, 8222228, 1 in the bin `[0, 2]` — the last one
+was placed at `2 + 2^-22`; two cells of demands 4, 2858381 in `[3946, 3970]` — the first one at `3946 − 2^-12`. -/
+theorem legacy_spreadF_can_leave_bin :
+    (2 : Rat) < (spreadCellsF [0, 1, 2] [2, 8222228, 1] 0 2).getD 2 0 ∧
+    (spreadCellsF [0, 1] [4, 2858381] 3946 3970).getD 0 0 < (3946 : Rat) := by
+  rw [witness_up, witness_low]
+  constructor <;> norm_num
+
+open ColoVerif.LegacySpreadF in
+/-- …and by more than one half, so that the export rounding did NOT absorb it: ten cells of demands
+16776988, 1×6, 2×3 (total just below 2^24, targets increasing) in the bin `[0, 4000000]`: every addition to the
+running share rounds up, it ends at `1 + 3·2^-22`, the last cell was placed at `4000002.5` and the exported
+centre of a zero-width cell there is `4000003 > 4000000 + 1/2`. -/
+theorem legacy_spreadF_can_exceed_half :
+    finalShareF [0, 1, 2, 3, 4, 5, 6, 7, 8, 9] [16776988, 1, 1, 1, 1, 1, 1, 2, 2, 2] 0 4000000 = 1 + 3 / 4194304 ∧
+    (4000000 : Rat) + 1 / 2 <
+      (exportCoord ((spreadCellsF [0, 1, 2, 3, 4, 5, 6, 7, 8, 9] [16776988, 1, 1, 1, 1, 1, 1, 2, 2, 2] 0 4000000).getD 9 0) 0 : Rat)
+        + (1 / 2) * ((0 : Int) : Rat) := by
+  rw [witness_drift.1, witness_drift.2]
+  have : exportCoord (8000005 / 2) 0 = 4000003 := by decide +kernel
+  rw [this]; norm_num
 
 /-- `GlobalPlacer::exportPlacement(circuit)`: on each axis the returned coordinate of a movable
 cell is `round((1−β)·lb + β·ub − size/2)` (the `β = 0` and `β = 1` short-cuts of
